@@ -493,6 +493,9 @@ func c05Oracle(line, out string) string {
 	if out == "bad-op" || len(f) < 2 {
 		return ""
 	}
+	if out == "enc-mutates-value" || out == "enc-not-repeatable" {
+		return "the bytes produced for a value are the prescribed ones every time the value is encoded (encoding does not change the value)"
+	}
 	if f[0] == "cal" {
 		return c05CalOracle(f, out)
 	}
